@@ -8,7 +8,7 @@
 (*   parse_export_request.                                                  *)
 (* Pure operators (no variables) so that the trace module can EXTEND it.    *)
 (*                                                                         *)
-(* Fl = [san, clchk, qfret] selects the variant:                            *)
+(* Fl = [san, clchk, qfret, lexg] selects the variant:                      *)
 (*   san   = FALSE : send_http_error puts str(exc) / the offending header   *)
 (*                   value into CIMErrorDetails as it is (the tree as read) *)
 (*   san   = TRUE  : CR/LF replaced, non-ASCII escaped before send_header   *)
@@ -19,11 +19,17 @@
 (*                   tree as read)                                          *)
 (*   qfret = FALSE : do_POST falls through to send_success_response: a      *)
 (*                   second response is written on the same connection      *)
+(*   lexg  : how the CIM-XML reader guards its conversions (the regular     *)
+(*           expressions in front of type_from_name() and int(x, 16)):       *)
+(*     "full"   : the guard accepts exactly the language                    *)
+(*     "eol"    : '^...$' - '$' also matches before one final line          *)
+(*                terminator (the tree as read)                              *)
+(*     "prefix" : the guard only looks at the beginning of the text          *)
 (***************************************************************************)
 EXTENDS ListenerHttpReq
 
-Legacy == [san |-> FALSE, clchk |-> FALSE, qfret |-> TRUE]
-Fixed  == [san |-> TRUE,  clchk |-> TRUE,  qfret |-> TRUE]
+Legacy == [san |-> FALSE, clchk |-> FALSE, qfret |-> TRUE, lexg |-> "eol"]
+Fixed  == [san |-> TRUE,  clchk |-> TRUE,  qfret |-> TRUE, lexg |-> "full"]
 
 Blank == [outcome |-> "closed", nresp |-> 0, status |-> 0, lineok |-> FALSE,
           hdrsyn |-> FALSE, framing |-> FALSE, rawnl |-> FALSE,
@@ -70,9 +76,78 @@ Export200(leaf, deliv) ==
 
 HdrDet(v) == IF v = "fold" THEN "fold" ELSE "plain"
 
+(* ---- the tuple parser at a position whose text it converts --------------*)
+(* result: the exception that leaves parse_export_request                   *)
+(*   "none" | "CIMXMLParseError" | "XMLParseError" | "ValueError"            *)
+(* TYPE positions with a value: unpack_value -> unpack_single_value(data,   *)
+(* cimtype): 'string' / 'boolean' / NUMERIC_CIMTYPE_PATTERN.match(cimtype)  *)
+(* -> unpack_numeric -> type_from_name(cimtype) [ValueError for anything    *)
+(* but an exact type name, not wrapped] / 'datetime' / 'char16' / else      *)
+(* CIMXMLParseError("Invalid CIM type").  TYPE positions without a value:   *)
+(* the text only reaches the CIMProperty / CIMMethod / CIMParameter          *)
+(* constructor, whose ValueError is wrapped.                                 *)
+TypeWithValue == {"propType", "arrType", "qualType", "keyType",
+                  "embPropType", "clsPropType"}
+NumericPositions == {"intValue", "arrValue", "qualValue", "embPropValue",
+                     "realValue", "keyNumValue"}
+NumTypeGuardPasses(x, g) ==
+  \/ g = "eol" /\ x = "numTrailNl"
+  \/ g = "prefix" /\ x \in {"numTrailNl", "numTrailSp", "numSuffix"}
+(* unpack_numeric: data.strip(); CIMXML_HEX_PATTERN.match(data) ->          *)
+(* int(data, 16) [ValueError not wrapped] else int(data) / float(data) ->   *)
+(* CIMXMLParseError; CIMType(value): ValueError / OverflowError wrapped     *)
+HexGuardPasses(x, g) ==
+  \/ x \in {"hex", "hexPlus", "hexHuge"}
+  \/ g = "prefix" /\ x = "hexSuffix"
+
+(* what the reader as read converts without complaint (besides Sure):      *)
+(* Python's int() / float() / CIMDateTime() are more generous than DSP0201  *)
+IntAccepted == {"hex", "hexPlus", "decPlus", "fraction", "exponent",
+                "underscore", "uniDigits", "leadingZero", "padded"}
+RealAccepted == IntAccepted \cup {"hugeExp", "nan", "inf"}
+LexAccepted ==
+  [p \in LexPositions |->
+     CASE p \in IntPositions -> IntAccepted
+       [] p = "realValue" -> RealAccepted
+       [] p = "keyNumValue" -> RealAccepted \cup {"hexHuge", "hugeDec"}
+       [] p = "keyType" -> {"empty"}          \* TYPE="" is taken as absent
+       [] p \in {"boolValue", "boolAttr"} -> {"upper", "padded", "empty"}
+       [] p = "dtValue" -> {"interval", "uniDigits", "hugeOffset",
+                            "asterisks"}
+       [] p = "char16Value" -> {"blank"}
+       [] p = "arraySize" -> {"negative", "huge", "padded", "underscore",
+                              "uniDigits", "zero"}
+       [] p \in {"embAttr", "embAttrNum"} -> {"empty"}  \* falsy: not embedded
+       [] OTHER -> {}]
+
+TupleParse(p, x, g) ==
+  IF p \in TypeWithValue /\ NumTypeGuardPasses(x, g) THEN "ValueError"
+  ELSE IF p \in NumericPositions /\ HexGuardPasses(x, g) /\ x = "hexSuffix"
+       THEN "ValueError"
+  ELSE IF x \in LexAccepted[p] THEN "none"
+  ELSE IF p \in {"embValue", "embArrValue"} /\
+          x \in {"notXml", "illformed", "empty", "blank", "twoRoots"}
+       THEN "XMLParseError"
+  ELSE "CIMXMLParseError"
+
+(* do_POST: except (CIMXMLParseError, XMLParseError) -> 400; the version    *)
+(* errors are raised before any conversion; everything else is not caught  *)
+MappedExc == {"CIMXMLParseError", "XMLParseError"}
+
 (* parse_export_request and what follows, on the body bytes actually seen  *)
 (* QueueFull: listener._handle_indication raised queue.Full                *)
-AfterRead(seen, fl, QueueFull) ==
+(* lp, lx: position and class of the lexeme in the body ("none": no such)  *)
+AfterParse(fl, QueueFull) ==
+         \* params is a dict: a repeated NewIndication collapses to the last
+         IF QueueFull
+         THEN IF fl.qfret THEN Export200(<<"ERROR">>, FALSE)     \* code 1
+              ELSE \* the ERROR response, then the success response: what a
+                   \* reader of the connection sees is the first one
+                   \* followed by a second status line; nothing was queued
+                   [Export200(<<"ERROR">>, FALSE) EXCEPT !.nresp = 2]
+         ELSE Export200(<< >>, TRUE)
+
+AfterRead(seen, lp, lx, fl, QueueFull) ==
   CASE seen \in {"empty", "truncated", "illformedXml", "badUtf8"} ->
          \* XMLParseError: multi-line text quoting the offending line
          HttpError(400, TRUE, "nl", FALSE, fl)
@@ -88,15 +163,15 @@ AfterRead(seen, fl, QueueFull) ==
     [] seen = "unknownMethod" -> Export200(<<"ERROR">>, FALSE)   \* code 7
     [] seen \in {"missingParam", "nullParam"} ->
          Export200(<<"ERROR">>, FALSE)                            \* code 4
-    [] seen \in {"validExport", "dupParam"} ->
-         \* params is a dict: a repeated NewIndication collapses to the last
-         IF QueueFull
-         THEN IF fl.qfret THEN Export200(<<"ERROR">>, FALSE)     \* code 1
-              ELSE \* the ERROR response, then the success response: what a
-                   \* reader of the connection sees is the first one
-                   \* followed by a second status line; nothing was queued
-                   [Export200(<<"ERROR">>, FALSE) EXCEPT !.nresp = 2]
-         ELSE Export200(<< >>, TRUE)
+    [] seen \in {"validExport", "dupParam", "lexeme"} ->
+         LET exc == IF lp = "none" THEN "none"
+                    ELSE TupleParse(lp, lx, fl.lexg) IN
+         IF exc = "none" THEN AfterParse(fl, QueueFull)
+         ELSE IF exc \in MappedExc
+              \* the message quotes the lexeme and ends in
+              \* "\nCIM-XML response: None"
+              THEN HttpError(400, TRUE, "nl", FALSE, fl)
+         ELSE Dropped   \* handler thread dies, nothing was written
 
 (* what rfile.read(content_len) hands to the parser                        *)
 Seen(c) == CASE c.clen = "absent" -> "empty"       \* int(0): read(0)
@@ -125,12 +200,13 @@ Pipeline(c, fl, QueueFull) ==
   ELSE IF c.clen = "neg" THEN Dropped       \* read(-5): ValueError
   ELSE IF c.clen = "huge" THEN Dropped      \* read(10**20): OverflowError
   ELSE IF c.clen \in {"negone", "long"} THEN Waiting  \* read until EOF / n
-  ELSE AfterRead(Seen(c), fl, QueueFull)
+  ELSE AfterRead(Seen(c), c.lpos, c.lex, fl, QueueFull)
 
 (* a blocked handler continues when the peer closes its sending side: the  *)
 (* read returns what was sent (negone: everything; long: fewer bytes than  *)
 (* announced, i.e. the complete body the peer did send)                    *)
-AfterPeerClose(c, fl, QueueFull) == AfterRead(c.body, fl, QueueFull)
+AfterPeerClose(c, fl, QueueFull) ==
+  AfterRead(c.body, c.lpos, c.lex, fl, QueueFull)
 
 (* comparison of an observation with the model (impl drift only)           *)
 Same(o, p) ==
